@@ -159,7 +159,9 @@ class BMCI:
         y_proj = np.dot(self.pc1, (y_obs - self.y_mean).ravel())
         s_l = y_proj - np.sqrt(2.0 * x2_max / self.pc1_e)
         s_u = y_proj + np.sqrt(2.0 * x2_max / self.pc1_e)
-        inds = np.searchsorted(self.pc1_proj, np.array([s_l, s_u]))
+        # Both bounds are inclusive (for x2_max = 0 exact matches must remain):
+        inds = [np.searchsorted(self.pc1_proj, s_l, side="left"),
+                np.searchsorted(self.pc1_proj, s_u, side="right")]
 
         return inds[0], inds[1], inds[1] - inds[0]
 
